@@ -361,7 +361,14 @@ class MultiFit(FitBase):
             par_names=self._cost_function.arg_names,
             existing_behavior="replace",
         )
+        # the new fitter must keep the parameters that were fixed or limited before
+        _fixed_parameters = self._fitter.fixed_parameters
+        _limited_parameters = self._fitter.limited_parameters
         self._initialize_fitter()
+        for _par_name in _fixed_parameters:
+            self._fitter.fix_parameter(_par_name)  # at its current value
+        for _par_name, _par_limits in _limited_parameters.items():
+            self._fitter.limit_parameter(_par_name, _par_limits)
 
     def _initialize_fitter(self):
         self._fitter = NexusFitter(
